@@ -667,6 +667,28 @@ func (m *Model) RunNilObj(s *Sink, rule string, fns []*ssa.Function) {
 			}
 		}
 	}
+	// reflect calls that can panic on values the checker does not model: only the reflect API whose preconditions the
+	// other clauses establish (kind tests, IsNil/IsValid/IsExported, bounded indexes) may be used on these paths
+	for _, fn := range fns {
+		n := 0
+		for _, b := range fn.Blocks {
+			for _, in := range b.Instrs {
+				call, ok := in.(*ssa.Call)
+				if !ok || call.Call.StaticCallee() == nil {
+					continue
+				}
+				name := fnFullName(call.Call.StaticCallee())
+				if !strings.HasPrefix(name, "(reflect.Value).") && !strings.HasPrefix(name, "(*reflect.MapIter).") {
+					continue
+				}
+				mname := name[strings.LastIndex(name, ".")+1:]
+				if why, bad := reflectPanicky[mname]; bad {
+					n++
+					s.Violation(rule, fmt.Sprintf("%s|reflect %s #%d", fnKey(fn), mname, n), m.InstrPos(call), "%s calls reflect.Value.%s, which panics %s; the conversion of data must report unsupported values as an error, never panic", fnKey(fn), mname, why)
+				}
+			}
+		}
+	}
 	// reflect Interface() receivers
 	for _, fn := range fns {
 		for _, b := range fn.Blocks {
@@ -937,4 +959,23 @@ func isNilFactFor(a *Arith, facts []Fact, v ssa.Value) bool {
 		}
 	}
 	return false
+}
+
+// reflectPanicky: reflect.Value methods whose panic conditions depend on the shape of the data (not on a kind the
+// surrounding code tests): using them on caller-supplied data needs its own proof, which this checker does not attempt.
+var reflectPanicky = map[string]string{
+	"FieldByIndex":    "on a nil embedded pointer along the index path (use FieldByIndexErr)",
+	"FieldByName":     "on a nil embedded pointer when the field is promoted through it",
+	"FieldByNameFunc": "on a nil embedded pointer when the field is promoted through it",
+	"Call":            "if the function panics or the arguments do not fit",
+	"CallSlice":       "if the function panics or the arguments do not fit",
+	"Convert":         "if the value is not convertible",
+	"Slice":           "if the bounds are out of range",
+	"Slice3":          "if the bounds are out of range",
+	"Method":          "if the index is out of range",
+	"Addr":            "if the value is not addressable",
+	"UnsafeAddr":      "if the value is not addressable",
+	"Recv":            "on a non-channel",
+	"Send":            "on a non-channel",
+	"Close":           "on a non-channel",
 }
